@@ -22,7 +22,8 @@ CONSTANTS
   ValDesc <- MCDesc
 INIT ScriptInit
 NEXT Next
-VIEW View
+VIEW noopView
+CONSTRAINT NoopBound1
 ACTION_CONSTRAINT Edge
 INVARIANTS TypeOK KeysOK TopCtxOK FreshDot
 CHECK_DEADLOCK FALSE
